@@ -1,13 +1,28 @@
 /-
   C06 — NumPy functions compute the same numbers on quantities as on bare arrays.
 
-  What is proved here is *which computation a call on quantities invokes*: for ANY numeric kernel
-  (`numpy` is a parameter) and ANY arguments, a handler row that calls the function it implements
-  and forwards every parameter in the same role returns exactly `numpy f (strip args)`; the
-  regenerated table of all handler × template rows satisfies those hypotheses except for the
-  literal exclusion list `Ref.exclC06` (each entry witnessed).  What NumPy's own implementation
-  does when it runs on a subclass (default path, raw-forwarded parameters) enters only as the
-  explicit hypothesis `UnitBlind` and is bounded by the differential correspondence, not proved.
+  What the Lean part is and is not (see manifest.d/C06.json, design.d/C06.md):
+
+  * `Np.run` / `Np.dispatch` are an INTERPRETER of trace records.  `run_values`, `run_values_raw`,
+    `default_path_is_identity`, `default_path_values`, `unsupported_raises` state that the interpreter
+    is consistent: a record whose labels say "the kernel of the requested function receives every
+    argument of the caller, stripped" is interpreted as `numpy f (strip args)`.  They say nothing
+    about unyt by themselves.
+  * The facts about unyt are the regenerated table `Generated.handlerTable`: per handler an `ast`
+    column (which handler parameter feeds which parameter of the kernel call, statically) and per
+    handler × call form a dynamic column (which kernel ran, and for each parameter whether the kernel
+    received THE OBJECT / BUFFER the caller passed — provenance by sentinel objects — or only an equal
+    value).  "Handler h forwards p" is an observation of tools/extract.d/c06_handlers.py +
+    harness/c06_trace.py, not a theorem.
+  * The kernel-decided obligations (`handlers_forward_faithfully`, `handlers_static_faithful`,
+    `exclusions_are_real`) state that the two independently regenerated columns agree and that every
+    record is defect free up to the literal exclusion list; they break the build when a handler changes.
+  * `C06_partial_values` generalises a record from the sampled values to all values of the same call
+    form (same set of passed parameters).  That generalisation is justified by the provenance labels
+    and the static column, not proved from the source; it is listed as an assumption.
+  * Shape, dtype kind, out= effects are inside the opaque result type `R`; default-path functions and
+    ndarray methods have no model.  The differential run against NumPy (harness/c06_diff.py) is the
+    independent evidence for all of that, and the direct oracle.
 -/
 import UnytModel.NpHandlers
 import UnytModel.Generated.Handlers
@@ -17,31 +32,37 @@ import UnytProofs.Lemmas.C06
 namespace Unyt.C06
 open Unyt Unyt.Np
 
-/-- assumption about NumPy used only where units reach the kernel: its result does not depend on
-    the unit labels of its arguments -/
+/-- assumption about NumPy used only where units reach the kernel: its result (the NUMBERS it
+    returns / writes) does not depend on the unit labels of its arguments.  Real NumPy satisfies this
+    only at the level of numbers (on a subclass it returns a subclass and goes through
+    `__array_ufunc__`); it is an assumption, bounded by the differential run, never proved. -/
 def UnitBlind {V R : Type} (numpy : Kernel V R) : Prop := ∀ g a, numpy g a = numpy g (stripArgs a)
+
+/-- the assumption is satisfiable (a kernel that looks at stripped arguments only) -/
+example : UnitBlind (fun g (a : Args Nat) => (g, stripArgs a)) := by
+  intro g a; simp only [stripArgs_idem]
 
 /-- P-gen: for ANY kernel and ANY arguments, a row that calls the function it implements and
     forwards every parameter of the call stripped, in the same role, returns exactly the numbers
     NumPy computes on the stripped arguments -/
 theorem run_values {V R : Type} (numpy : Kernel V R) (alt : String → PyVal V) (alter : R → R)
     (unitRule : Args V → String) (row : Row) (args : Args V) (via : Bool) (rest : List (Bool × String))
-    (hcall : row.calls = (via, row.func) :: rest)
+    (hcall : row.calls = (via, row.func) :: rest) (hok : row.raised = false)
     (hfwd : AllSame row.params args) (hinj : NoInjected row.params)
     (hpost : row.post ≠ Post.changed) :
     (run numpy alt alter unitRule row args).values = some (numpy row.func (stripArgs args)) := by
-  simp only [run, hcall, attach, Outcome.values, forward_allSame row.params alt args hfwd hinj]
+  simp only [run, hcall, hok, attach, Outcome.values, forward_allSame row.params alt args hfwd hinj]
   cases hp : row.post <;> simp_all [applyPost]
 
 /-- the same when some parameters reach the kernel still carrying units, for a unit-blind kernel -/
 theorem run_values_raw {V R : Type} (numpy : Kernel V R) (hblind : UnitBlind numpy)
     (alt : String → PyVal V) (alter : R → R)
     (unitRule : Args V → String) (row : Row) (args : Args V) (via : Bool) (rest : List (Bool × String))
-    (hcall : row.calls = (via, row.func) :: rest)
+    (hcall : row.calls = (via, row.func) :: rest) (hok : row.raised = false)
     (hfwd : AllSameOrRaw row.params args) (hinj : NoInjected row.params)
     (hpost : row.post ≠ Post.changed) :
     (run numpy alt alter unitRule row args).values = some (numpy row.func (stripArgs args)) := by
-  simp only [run, hcall, attach, Outcome.values]
+  simp only [run, hcall, hok, attach, Outcome.values]
   rw [hblind row.func (forward row.params alt args), strip_forward_raw row.params alt args hfwd hinj]
   cases hp : row.post <;> simp_all [applyPost]
 
@@ -103,13 +124,18 @@ theorem defect_free_row_is_faithful (row : Row) (hd : defects row = []) (hc : ro
     | [] => exact absurd hcs hc
     | _ :: _ => rw [hcs, hp] at h3; simp at h3
 
-/-- the full statement at the level of the model: every regenerated row and handler is defect free -/
+/-- the full statement AT THE LEVEL OF THE TABLE (not the property of properties.jsonl, whose
+    subject — shapes, dtype kinds, out= effects of ~350 functions and every method — lives in the
+    opaque result type and in the differential oracle): every regenerated row and handler is defect
+    free and the dynamic and static columns agree -/
 def C06_full : Prop :=
-  (∀ r ∈ Generated.traceRows, defects r = []) ∧ (∀ h ∈ Generated.handlerStatics, staticDefects h = [])
+  (∀ hr ∈ Generated.handlerTable, ∀ r ∈ hr.2, defects r = [] ∧ provenanceDefects hr.1 r = [])
+  ∧ (∀ h ∈ Generated.handlerStatics, staticDefects h = [])
 
-/-- P-tab, dynamic: every defect of every handler × template row of the regenerated table is on
-    the literal exclusion list -/
-theorem handlers_forward_faithfully : tableOk Ref.exclC06 Generated.traceRows = true := by
+/-- P-tab: for every handler × call-form row of the regenerated table, every defect of the dynamic
+    record AND every disagreement between its `same` labels and the handler's static provenance
+    column is on the literal exclusion list -/
+theorem handlers_forward_faithfully : groupedOk Ref.exclC06 Generated.handlerTable = true := by
   decide +kernel
 
 /-- P-tab, static (ast pass): every `_implementation` a handler mentions is the one it implements
@@ -129,33 +155,43 @@ theorem dispatcher_tables_consistent :
     ∧ (Generated.handlerStatics.map (·.implements) == Generated.npHandled) = true := by
   decide +kernel
 
-/-- partial statement with an explicit decidable guard: rows of functions that the exclusion list
-    does not mention have no defect at all -/
+/-- partial statement with the precise decidable guard: a row none of whose defects is an excluded
+    (function, defect) pair has no defect at all — in particular the rows of apply_over_axes /
+    histogramdd that do not show the excluded defects are covered -/
 theorem C06_partial :
-    ∀ r ∈ Generated.traceRows, (Ref.exclC06.all fun e => e.1 != r.func) = true → defects r = [] := by
-  intro r hr hguard
+    ∀ hr ∈ Generated.handlerTable, ∀ r ∈ hr.2,
+      ((defects r ++ provenanceDefects hr.1 r).all fun d => !Ref.exclC06.contains (r.func, d)) = true →
+      defects r = [] ∧ provenanceDefects hr.1 r = [] := by
+  intro hr hhr r hr' hguard
   have h := handlers_forward_faithfully
-  simp only [tableOk, List.all_eq_true] at h
-  have hr' := h r hr
-  cases hd : defects r with
-  | nil => rfl
-  | cons d ds =>
-    exfalso
-    have hd' := hr' d (by rw [hd]; exact List.mem_cons_self ..)
-    rw [List.all_eq_true] at hguard
-    have hc : (r.func, d) ∈ Ref.exclC06 := by simpa using hd'
-    have := hguard (r.func, d) hc
-    simp at this
+  simp only [groupedOk, List.all_eq_true] at h
+  have h1 := h hr hhr
+  have h2 := (Bool.and_eq_true _ _).mp (h1 r hr')
+  have hall := List.all_eq_true.mp h2.2
+  rw [List.all_eq_true] at hguard
+  have hnil : defects r ++ provenanceDefects hr.1 r = [] := by
+    cases hd : defects r ++ provenanceDefects hr.1 r with
+    | nil => rfl
+    | cons d ds =>
+      exfalso
+      have hm : d ∈ defects r ++ provenanceDefects hr.1 r := by rw [hd]; exact List.mem_cons_self ..
+      have a1 := hall d hm
+      have a2 := hguard d hm
+      simp_all
+  exact List.append_eq_nil_iff.mp hnil
 
-/-- … and such a row, on every call it covers, for every unit-blind kernel, returns NumPy's numbers -/
+/-- … and the record of such a row, read by the interpreter on ANY values of the same call form
+    (the parameters the row lists), for every unit-blind kernel, yields NumPy's numbers.  This
+    generalises the sampled record to all values; see the header and the manifest's assumptions. -/
 theorem C06_partial_values {V R : Type} (numpy : Kernel V R) (hblind : UnitBlind numpy)
     (alt : String → PyVal V) (alter : R → R) (unitRule : Args V → String)
-    (r : Row) (hr : r ∈ Generated.traceRows)
-    (hguard : (Ref.exclC06.all fun e => e.1 != r.func) = true) (hc : r.calls ≠ [])
+    (hr : HandlerStatic × List Row) (hhr : hr ∈ Generated.handlerTable) (r : Row) (hr' : r ∈ hr.2)
+    (hguard : ((defects r ++ provenanceDefects hr.1 r).all fun d => !Ref.exclC06.contains (r.func, d)) = true)
+    (hc : r.calls ≠ []) (hok : r.raised = false)
     (args : Args V) (hcov : ∀ pv ∈ args, ∃ f, lookupFwd r.params pv.1 = some f ∧ (pv.1, f) ∈ r.params) :
     (run numpy alt alter unitRule r args).values = some (numpy r.func (stripArgs args)) := by
-  obtain ⟨⟨via, hcall⟩, hps, hpost⟩ := defect_free_row_is_faithful r (C06_partial r hr hguard) hc
-  refine run_values_raw numpy hblind alt alter unitRule r args via [] hcall ?_ ?_ hpost
+  obtain ⟨⟨via, hcall⟩, hps, hpost⟩ := defect_free_row_is_faithful r (C06_partial hr hhr r hr' hguard).1 hc
+  refine run_values_raw numpy hblind alt alter unitRule r args via [] hcall hok ?_ ?_ hpost
   · intro pv hpv
     obtain ⟨f, hf, hmem⟩ := hcov pv hpv
     have := hps (pv.1, f) hmem
@@ -167,11 +203,13 @@ theorem C06_partial_values {V R : Type} (numpy : Kernel V R) (hblind : UnitBlind
 /-- unyt violates the full statement on the unchanged tree -/
 theorem C06_counterexample : ¬ C06_full := by
   intro h
-  have hb : (Generated.traceRows.all fun r => (defects r).isEmpty) = true := by
+  have hb : (Generated.handlerTable.all fun hr => hr.2.all fun r => (defects r).isEmpty) = true := by
     rw [List.all_eq_true]
-    intro r hr
-    simp [h.1 r hr]
-  have : (Generated.traceRows.all fun r => (defects r).isEmpty) = false := by decide +kernel
+    intro hr hhr
+    rw [List.all_eq_true]
+    intro r hr'
+    simp [(h.1 hr hhr r hr').1]
+  have : (Generated.handlerTable.all fun hr => hr.2.all fun r => (defects r).isEmpty) = false := by decide +kernel
   rw [this] at hb
   exact Bool.noConfusion hb
 
@@ -180,7 +218,7 @@ theorem C06_counterexample : ¬ C06_full := by
 theorem apply_over_axes_runs_no_kernel {V R : Type} (numpy : Kernel V R) (alt : String → PyVal V)
     (alter : R → R) (unitRule : Args V → String) (args : Args V) :
     (run numpy alt alter unitRule
-        ⟨"numpy.apply_over_axes", "sum1", "a:q,axes:b,func:b", false, [], [], Post.none⟩ args).values = none := by
+        ⟨"numpy.apply_over_axes", "sum1", "a:q,axes:b,func:b", false, [], [], [], Post.none⟩ args).values = none := by
   rfl
 
 theorem apply_over_axes_row_is_regenerated :
@@ -202,12 +240,18 @@ example : (Generated.traceRows.any fun r => r.func == "numpy.linalg.det" && r.ca
 
 example (numpy : Kernel Nat Nat) (a : Nat) :
     (run numpy (fun _ => PyVal.bare 0) id (fun _ => "m")
-      ⟨"numpy.linalg.det", "pos", "a:q", false, [(true, "numpy.linalg.det")], [("a", Fwd.same)], Post.id⟩
+      ⟨"numpy.linalg.det", "pos", "a:q", false, [(true, "numpy.linalg.det")], [("a", Fwd.same)], [], Post.id⟩
       [("a", PyVal.qty a "m")]).values = some (numpy "numpy.linalg.det" [("a", PyVal.bare a)]) :=
-  run_values numpy _ _ _ _ _ true [] rfl (by intro pv h; simp_all [lookupFwd]) (by intro pf h; simp_all) (by simp)
+  run_values numpy _ _ _ _ _ true [] rfl rfl (by intro pv h; simp_all [lookupFwd]) (by intro pf h; simp_all) (by simp)
 
 /-- the guard of `C06_partial` is met by most of the table -/
-example : ((Generated.traceRows.filter fun r => Ref.exclC06.all fun e => e.1 != r.func).length ≥ 400) = true := by
+example : ((Generated.handlerTable.flatMap fun hr => hr.2.filter fun r =>
+    (defects r ++ provenanceDefects hr.1 r).all fun d => !Ref.exclC06.contains (r.func, d)).length ≥ 400) = true := by
+  decide +kernel
+
+/-- the provenance column is not vacuous: some labels rest on value only and are backed by a direct
+    static feed, and the static column really lists direct feeds -/
+example : (Generated.handlerTable.any fun hr => hr.2.any fun r => !r.byValue.isEmpty && !hr.1.fwdDirect.isEmpty) = true := by
   decide +kernel
 
 /-- a default-path function of the regenerated tables -/
